@@ -139,8 +139,11 @@ pub struct bcdd_pair_t {
 /// Create a new manager for a binary decision diagram with complement edges
 /// (BCDD)
 ///
-/// @param  inner_node_capacity   Maximum number of inner nodes. `0` means no
-///                               limit.
+/// @param  inner_node_capacity   Maximum number of inner nodes. This is a
+///                               hard limit: once it is reached, operations
+///                               return invalid functions. In particular, `0`
+///                               does *not* mean "no limit" but a manager that
+///                               can only represent the terminals.
 /// @param  apply_cache_capacity  Maximum number of apply cache entries. The
 ///                               apply cache implementation may round this up
 ///                               to the next power of two.
